@@ -282,10 +282,16 @@ class OperatorNode(ASTNode):
 
         op = self.op_map.get(xop, xop)
 
-        if self.type == Token.OP_PRE:
-            return self.value + args[0].emit
-
         parent = self.parent
+        if self.type == Token.OP_PRE:
+            ss = self.value + args[0].emit
+            # a prefix operator binds tighter than any excel operator,
+            # python's ** binds tighter than unary minus
+            if isinstance(parent, OperatorNode) and \
+                    parent.type != Token.OP_PRE:
+                ss = "(" + ss + ")"
+            return ss
+
         if op == '%':
             ss = f'{args[0].emit} / 100'
         elif op == ' ':
